@@ -89,16 +89,97 @@ def check(ctx, circ, cls, cond):
     return True
 
 
+def mirror_S(t):
+    from fractions import Fraction as F
+    r = 2 * t / (1 + t * t)
+    tau = (1 - t * t) / (1 + t * t)
+    return [[(r, F(0)), (F(0), tau)], [(F(0), tau), (r, F(0))]]
+
+
+def sweep_case(rng, nmax):
+    """lossless circuit in which some two-ports are tunable mirrors S(t) sharing the swept parameter t"""
+    from fractions import Fraction as F
+    circ = gen.random_circuit(rng, ncomp_max=nmax, ports_max=3, unitary=True, p_link=0.6, p_expose=1.0)
+    mirrors = [c for c, comp in enumerate(circ["comps"]) if len(comp["pins"]) == 2 and rng.random() < 0.7]
+    if not mirrors:
+        return None
+    n = rng.randint(2, 5)
+    ts = [F(rng.randint(-6, 6), 8) for _ in range(n)]
+    if rng.random() < 0.6:
+        ts[0] = F(0)
+    return circ, mirrors, ts
+
+
+def check_sweep(ctx, circ, mirrors, ts):
+    L = impl.lk()
+    TM = impl.tunable_mirror_class()
+    replay = {"circuit": gen.circuit_json(circ), "class": "unitary-sweep", "mirrors": mirrors, "ts": [gen.frac_str(t) for t in ts]}
+    sts = []
+    for c, comp in enumerate(circ["comps"]):
+        if c in mirrors:
+            inv = sorted(zip(comp["idx"], comp["pins"]))
+            sts.append(L.Structure(model=TM([inv[0][1], inv[1][1]])))
+        else:
+            n = len(comp["pins"])
+            sts.append(L.Structure(model=L.Model(pin_dic={L.Pin(p): i for p, i in zip(comp["pins"], comp["idx"])}, Smatrix=gen.mat_np(comp["S"], n, n))))
+    try:
+        sol = L.Solver()
+        for st in sts:
+            sol.add_structure(st)
+        for (a, p, b, q) in circ["links"]:
+            sol.connect(sts[a], p, sts[b], q)
+        for (nm, c, p) in circ["exposed"]:
+            sol.map_pins({L.Pin(nm): (sts[c], L.Pin(p))})
+        mod = sol.solve(t=np.array([float(t) for t in ts]))
+        T = impl.solved_matrix(mod, cs.exposed_names(circ))
+    except Exception as e:  # noqa
+        if impl.outcome_class(e) == "singular":
+            ctx.tag("outcome:singular-raised")
+            return True
+        ctx.violation(f"C08:sweep-solve-{impl.outcome_class(e)}", f"sweep solve raised {type(e).__name__}", replay)
+        return False
+    for k, t in enumerate(ts):
+        conc = {"comps": [dict(comp, S=mirror_S(t)) if c in mirrors else comp for c, comp in enumerate(circ["comps"])],
+                "links": circ["links"], "exposed": circ["exposed"]}
+        _, cond, _, _ = gen.reference_solve(conc)
+        if cond > 1e5:
+            ctx.tag("skipped:ill-conditioned:unitary-sweep")
+            continue
+        Tk = T[k]
+        n = Tk.shape[0]
+        d = float(np.max(np.abs(Tk.conj().T @ Tk - np.eye(n)))) if n else 0.0
+        if not (d <= 1e-9 * max(1.0, cond) ** 2):
+            ctx.violation("C08:not-unitary-in-sweep", f"lossless circuit, sweep point {k} (t={t}): |S^H S - 1| = {d:.3e}", replay)
+            return False
+    return True
+
+
 def run(ctx):
     rng = ctx.subrng("c08")
     n = ctx.budget(100, 1500)
     nmax = 6 if ctx.tier == "quick" else 9
     for cls in ("unitary", "passive", "symmetric"):
         run_class(ctx, rng, cls, n, nmax)
+    for i in range(ctx.budget(80, 1000)):
+        if ctx.time_left() < 0:
+            break
+        sc = sweep_case(rng, nmax)
+        if sc is None:
+            continue
+        circ, mirrors, ts = sc
+        ctx.case(("unitary-sweep", gen.circuit_json(circ), mirrors, [str(t) for t in ts]), nontrivial=cs.nontrivial(circ),
+                 tags=["class:unitary-sweep"] + (["first-point-zero"] if ts[0] == 0 else []))
+        check_sweep(ctx, circ, mirrors, ts)
 
 
 def replay(ctx, data):
     circ = gen.circuit_from_json(data["circuit"])
+    if data["class"] == "unitary-sweep":
+        from fractions import Fraction as F
+        check_sweep(ctx, circ, data["mirrors"], [F(t) for t in data["ts"]])
+        if ctx.violations:
+            return False, ctx.violations[0]["what"]
+        return True, "unitary at every sweep point"
     _, cond, _, _ = gen.reference_solve(circ)
     check(ctx, circ, data["class"], cond)
     if ctx.violations:
